@@ -186,6 +186,42 @@ fn find_or_create_sweep(found: &mut Vec<Found>) -> u64 {
     n
 }
 
+/// integration-slot exhaustion through the real `drift_deposit` (against the harness's Drift stand-in, venue.rs):
+/// an account deposits into nine Drift-backed banks in turn, with ordinary deposits in between; the structure is
+/// judged after every step and a ninth integration position must not open
+fn integration_slots_sweep(found: &mut Vec<Found>) -> (u64, Vec<String>) {
+    let mut banks = vec![];
+    for i in 0..11 {
+        let mut b = spec_b6();
+        b.label = format!("V{i}");
+        b.mint = MintSpec::spl(&format!("venue{i}"), 6);
+        banks.push(b);
+    }
+    let (w, mut s) = build_world(&WorldSpec::new("HV", banks, &["u0"]));
+    for b in 0..9 {
+        crate::venue::make_drift_bank(&mut s, &w, b);
+    }
+    let auth = w.users[0].authority;
+    let mut classes = vec![];
+    let mut n = 0u64;
+    let integ = |s: &Store| world::account(s, &w.users[0].account).lending_account.balances.iter().filter(|b| b.active != 0 && matches!(b.bank_asset_tag, 3 | 4 | 5)).count();
+    for step in 0..11usize {
+        // steps 0..8: venue deposits into banks 0..8; an ordinary deposit (banks 9, 10) after the third and the sixth
+        let tx = crate::venue::deposit_tx(&w, &s, 0, step.min(8), 1_000_000 + step as u64, auth);
+        let ok = if step < 9 { crate::svm::process_tx(&mut s, &tx).ok() } else { act::apply(&w, &mut s, &Action::Deposit { u: 0, b: step, amt: 5_000_000, up_to_limit: None }).committed };
+        n += 1;
+        classes.push(format!("integration_slots:step{step}:{}:{}", if step < 9 { "venue_deposit" } else { "deposit" }, if ok { "ok" } else { "refused" }));
+        let ma = world::account(&s, &w.users[0].account);
+        for v in structure_violations(&ma, "u0") {
+            found.push(Found { clause: v.clause, sig: "integration_slots".into(), detail: v.detail, replay: json!({"model": "C16venue", "upto": step}) });
+        }
+        if integ(&s) > 8 {
+            found.push(Found { clause: "C16.bounded".into(), sig: "integration_slots".into(), detail: format!("the account holds {} integration positions after step {step}", integ(&s)), replay: json!({"model": "C16venue", "upto": step}) });
+        }
+    }
+    (n, classes)
+}
+
 pub fn run(tier: Tier) -> Outcome {
     let depth = match tier {
         Tier::Quick => 3,
@@ -201,13 +237,18 @@ pub fn run(tier: Tier) -> Outcome {
         &["deposit:ok:structure_checked", "withdraw_all:ok:structure_checked", "borrow:ok:structure_checked"],
         &["liquidate:ok:structure_checked", "transfer_account:ok:transferred", "close_account:ok:account_closed", "deposit:6047", "borrow:6047"],
         "every action sequence up to the depth bound (deposit, withdraw, withdraw-all, borrow, repay, repay-all, close-balance, liquidation in every asset/debt bank combination, transfer, close-account; not pruned) over banks tagged default / SOL / staked (forged) / isolated; after every committed transaction every changed account is checked for distinct banks, one side per bank, sorted prefix, tag compatibility, bounds, tag stability; closes, disabled accounts and transfers are judged on their pre/post states; plus a 17-bank slot-exhaustion run and a 0..16 x 0..9 x 6-tag sweep of the position-opening routine",
-        vec!["environment model E1 (svm-lite)".into(), "the staked-collateral bank is a forged tag on a regular bank; integration (Kamino/Drift/Solend) positions exist only in the component-level sweep".into()],
+        vec!["environment model E1 (svm-lite)".into(), "the staked-collateral bank is a forged tag on a regular bank; integration positions are opened through the real drift_deposit against the harness stand-in for Drift (slot sweep) and exist otherwise only in the component-level sweep".into()],
         &["F0", "F1", "F2", "F3", "F4"],
     );
     let (n1, slot_classes) = slots_sweep(&mut o.found);
     let n2 = find_or_create_sweep(&mut o.found);
     o.coverage["slot_exhaustion"] = json!({"instructions": n1, "outcomes": slot_classes});
     o.coverage["find_or_create_sweep"] = json!({"calls": n2});
+    let (n3, venue_classes) = integration_slots_sweep(&mut o.found);
+    if !venue_classes.iter().any(|c| c.contains("venue_deposit:ok")) || !venue_classes.iter().any(|c| c.contains("step8:venue_deposit:refused")) {
+        o.machinery.push(format!("vacuity guard: the integration-slot sweep did not open eight venue positions and get the ninth refused: {:?}", venue_classes));
+    }
+    o.coverage["integration_slot_exhaustion"] = json!({"instructions": n3, "outcomes": venue_classes});
     o
 }
 
@@ -216,6 +257,11 @@ pub fn replay(v: &serde_json::Value) -> Vec<crate::mc::Violation> {
         Some("C16slots") => {
             let mut f = vec![];
             slots_sweep(&mut f);
+            f.into_iter().map(|x| crate::mc::Violation { clause: x.clause, detail: x.detail }).collect()
+        }
+        Some("C16venue") => {
+            let mut f = vec![];
+            integration_slots_sweep(&mut f);
             f.into_iter().map(|x| crate::mc::Violation { clause: x.clause, detail: x.detail }).collect()
         }
         Some("C16foc") => {
